@@ -15,7 +15,8 @@ for m in sorted(glob.glob(os.path.join(V, "seeded", "*", "meta.json"))):
     needs = (d.get("needs_to_manifest") or "").replace("|", "/").replace("\n", " ")[:120]
     rows.append(f"| {sid} | {title} | {needs} | {', '.join(det) or '**missed**'} | `{rule}` |")
 HEAD = "| id | change (independent sub-agent) | needs to manifest | reported by | first rule of the own property |\n|---|---|---|---|---|\n"
-r1 = [r for r in rows if "-r2-" not in r.split("|")[1] and "-r4-" not in r.split("|")[1] and "-r6-" not in r.split("|")[1] and "-r8-" not in r.split("|")[1]]
+r1 = [r for r in rows if "-r2-" not in r.split("|")[1] and "-r4-" not in r.split("|")[1] and "-r6-" not in r.split("|")[1] and "-r8-" not in r.split("|")[1] and "-r10-" not in r.split("|")[1]]
+r10 = [r for r in rows if "-r10-" in r.split("|")[1]]
 r8 = [r for r in rows if "-r8-" in r.split("|")[1]]
 r6 = [r for r in rows if "-r6-" in r.split("|")[1]]
 r4 = [r for r in rows if "-r4-" in r.split("|")[1]]
@@ -38,5 +39,8 @@ if a in s:
 a, b = "<!-- SEEDED8-TABLE-BEGIN -->", "<!-- SEEDED8-TABLE-END -->"
 if a in s:
     s = s[: s.index(a) + len(a)] + "\n" + HEAD + "\n".join(r8) + "\n" + s[s.index(b):]
+a, b = "<!-- SEEDED10-TABLE-BEGIN -->", "<!-- SEEDED10-TABLE-END -->"
+if a in s:
+    s = s[: s.index(a) + len(a)] + "\n" + HEAD + "\n".join(r10) + "\n" + s[s.index(b):]
 open(p, "w").write(s)
 print(len(rows), "rows")
